@@ -122,6 +122,13 @@ func buildFromDefinition(def *configDefinition, lc *loaderContext) (cfg *Config,
 		}
 	}
 
+	for k, g := range cfg.Pipelines {
+		err = checkPipelineInclusion(k, g, make(map[*scheduler.ExecutionGraph]bool))
+		if err != nil {
+			return nil, err
+		}
+	}
+
 	cfg.Import = def.Import
 	cfg.Debug = def.Debug
 	cfg.Output = def.Output
